@@ -15,7 +15,7 @@ def make_top(name, atoms, bonds):
     return top
 
 
-def make_residues(atoms, coords, resid_offset=0, velocities=None):
+def make_residues(atoms, coords, resid_offset=0, velocities=None, resid_stride=1):
     from gaddlemaps.components import Residue, AtomGro
     residues, cur, key = [], [], None
     for i, (an, rn, rid) in enumerate(atoms):
@@ -24,7 +24,7 @@ def make_residues(atoms, coords, resid_offset=0, velocities=None):
             residues.append(Residue(cur))
             cur = []
         key = k
-        line = [rid + resid_offset, rn, an, i + 1, coords[i][0], coords[i][1], coords[i][2]]
+        line = [rid * resid_stride + resid_offset, rn, an, i + 1, coords[i][0], coords[i][1], coords[i][2]]
         if velocities is not None:
             line += list(velocities[i])
         cur.append(AtomGro(line))
@@ -32,11 +32,11 @@ def make_residues(atoms, coords, resid_offset=0, velocities=None):
     return residues
 
 
-def make_molecule(name, atoms, bonds, coords, resid_offset=0, top=None, velocities=None):
+def make_molecule(name, atoms, bonds, coords, resid_offset=0, top=None, velocities=None, resid_stride=1):
     from gaddlemaps.components import Molecule
     if top is None:
         top = make_top(name, atoms, bonds)
-    return Molecule(top, make_residues(atoms, coords, resid_offset, velocities))
+    return Molecule(top, make_residues(atoms, coords, resid_offset, velocities, resid_stride))
 
 
 def simple_atoms(n, prefix, resname):
